@@ -315,6 +315,70 @@ def generate_dispatch(repo):
                                  shortcuts=len(shortcuts), swap=swap, pattern=pat1 and pat2)
 
 
+def generate_rescale(repo):
+    """src/rebound.h (struct reb_integrator_ias15) + src/tools.c (reb_simulation_rescale_var, IAS15 branch) +
+    src/integrator_ias15.c -> lean/RV/Gen/C16Rescale.lean: the per-particle arrays IAS15 owns, the arrays rescale_var divides
+    together with the variational particles, and for every array whether its first use in a step attempt is a plain write"""
+    h = strip_comments(open(os.path.join(repo, "src", "rebound.h")).read())
+    m = re.search(r"struct reb_integrator_ias15\s*\{(.*?)\n\};", h, flags=re.S)
+    if not m:
+        raise ParseError("rebound.h: struct reb_integrator_ias15 not found")
+    members = []
+    for kind, name in re.findall(r"(double\s*\*\s*(?:REB_RESTRICT)?|struct\s+reb_dp7)\s+(\w+)\s*;", m.group(1)):
+        members.append((name, "dp7" if "dp7" in kind else "ptr"))
+    t = strip_comments(open(os.path.join(repo, "src", "tools.c")).read())
+    f = re.search(r"void reb_simulation_rescale_var\s*\(.*?\)\s*\{(.*?)\n\}\n", t, flags=re.S)
+    if not f:
+        raise ParseError("tools.c: reb_simulation_rescale_var not found")
+    body = f.group(1)
+    a = re.search(r"double\s*\*\s*const\s+arrays\s*\[(\d+)\]\s*=\s*\{(.*?)\};", body, flags=re.S)
+    if not a:
+        raise ParseError("tools.c: IAS15 array list of rescale_var not found")
+    declared = int(a.group(1))
+    entries = [e_.strip() for e_ in a.group(2).split(",") if e_.strip()]
+    names = []
+    for e_ in entries:
+        mm = re.match(r"ri->(\w+(?:\.p[0-6])?)$", e_)
+        if not mm:
+            raise ParseError("tools.c: array list entry not understood: " + e_)
+        names.append(mm.group(1))
+    lb = re.search(r"for\s*\(\s*int\s+a\s*=\s*0\s*;\s*a\s*<\s*(\d+)\s*;", body)
+    loop = int(lb.group(1)) if lb else -1
+    divides = re.search(r"arrays\[a\]\[k\]\s*/=\s*scale", body) is not None
+    krange = re.search(r"for\s*\(\s*int\s+k\s*=\s*3\*vc->index\s*;\s*k\s*<\s*3\*\(vc->index\+N\)\s*;", body) is not None
+    st = strip_comments(open(os.path.join(repo, "src", "integrator_ias15.c")).read())
+    sf = re.search(r"static int reb_integrator_ias15_step\s*\(.*?\)\s*\{(.*?)\n\}\n", st, flags=re.S)
+    if not sf:
+        raise ParseError("integrator_ias15.c: reb_integrator_ias15_step not found")
+    sb = sf.group(1)
+    # skip the local alias declarations ("double* restrict const x0 = r->ri_ias15.x0;", "dpcast(...)")
+    sb2 = "\n".join(l for l in sb.split("\n") if "r->ri_ias15." not in l)
+    wf = []
+    for name, kind in members:
+        pats = [name + r"\["] if kind == "ptr" else [name + r"\.p%d\[" % i for i in range(7)]
+        ok = True
+        for pt in pats:
+            mm = re.search(r"(?<![\w.>])" + pt + r"[^\]]*\]\s*([-+*/]?=)(?!=)|(?<![\w.>])" + pt, sb2)
+            if not mm or mm.group(1) != "=":
+                ok = False
+        wf.append((name, ok))
+    q = lambda xs: "[" + ", ".join('"%s"' % x for x in xs) + "]"
+    out = ["/- GENERATED by rv/extract_c16.py from src/rebound.h, src/tools.c, src/integrator_ias15.c — do not edit. -/",
+           "namespace RV.Gen.C16Rescale",
+           "/-- per-particle arrays of `struct reb_integrator_ias15`: (member, \"ptr\" = double*, \"dp7\" = seven arrays p0..p6) -/",
+           "def ias15Members : List (String × String) := [" + ", ".join('("%s", "%s")' % mk for mk in members) + "]",
+           "/-- the arrays `reb_simulation_rescale_var` divides by `scale` together with the variational particles (IAS15 branch) -/",
+           "def rescaled : List String := " + q(names),
+           "def declaredArraySize : Nat := %d" % declared,
+           "def loopBound : Nat := %d" % loop,
+           "/-- the loop body is `arrays[a][k] /= scale` for `k` in `3*index .. 3*(index+N)` -/",
+           "def loopShapeOk : Bool := %s" % ("true" if (divides and krange) else "false"),
+           "/-- for every member: is its first use inside `reb_integrator_ias15_step` a plain assignment (scratch array)? -/",
+           "def writtenFirst : List (String × Bool) := [" + ", ".join('("%s", %s)' % (n, "true" if b else "false") for n, b in wf) + "]",
+           "end RV.Gen.C16Rescale", ""]
+    return "\n".join(out), dict(members=len(members), rescaled=len(names), declared=declared, loop=loop)
+
+
 if __name__ == "__main__":
     text, fams, total = generate(sys.argv[1] if len(sys.argv) > 1 else "/repo")
     sys.stdout.write(text)
